@@ -31,10 +31,15 @@ class Facts:
         self._iban_table = None
 
     # ------------------------------------------------------------------ evaluator factory
-    def interp(self, theory=None, **kw):
+    def interp(self, theory=None, algorithms=True, **kw):
         it = Interp(self.program, registry=self.ctx.registry, theory=theory, **kw)
         from .intrinsics import install
         install(it, self)
+        if algorithms and not getattr(self, "_building_regs", False):
+            # the process-wide table filled at import: one (fresh, per lookup) instance per registered key
+            from .ops import LazyInstance
+            table = {key: LazyInstance(r.cls) for key, r in self.algorithm_table().items()}
+            it._modconst_cache[("schwifty.checksum", "algorithms")] = table
         return it
 
     # ------------------------------------------------------------------ Component enum
@@ -65,7 +70,11 @@ class Facts:
         pkg = prog.module("schwifty.checksum")
         if "algorithms" not in pkg.defs or "register" not in pkg.defs:
             raise AnalysisError("anchor vanished: schwifty.checksum.algorithms / register")
-        it = self.interp()
+        self._building_regs = True
+        try:
+            it = self.interp(algorithms=False)
+        finally:
+            self._building_regs = False
         table = it.module_const(pkg, "algorithms")
         if not isinstance(table, dict):
             raise AnalysisError("schwifty.checksum.algorithms is not a dict literal")
